@@ -729,8 +729,32 @@ func execExotic(e *env, op *Op, out *Outcome) {
 			N   int
 		}]string{{nil, 1}: "a", {nil, 2}: "b", {"t", 1}: "c", {3, 1}: "d"},
 		map[[2]interface{}]int{{nil, "x"}: 1, {nil, "y"}: 2, {nil, nil}: 3, {1, nil}: 4},
-		map[interface{}]interface{}{[1]interface{}{nil}: nil, struct{ E error }{}: 1, struct{ E error }{fmt.Errorf("e")}: 2}}
-	verbs := []string{"%v", "%+v", "%#v", "%d", "%x", "%p", "%s", "%T", "%q", "%08.3v", "%-9d", "%U", "%c", "%t", "%e"}
+		map[interface{}]interface{}{[1]interface{}{nil}: nil, struct{ E error }{}: 1, struct{ E error }{fmt.Errorf("e")}: 2},
+		// every kind fmtsort compares, with ties and with both orders
+		map[uint]int{3: 1, 1: 2, 1 << 63: 3}, map[uintptr]bool{2: true, 1: false}, map[uint8]int{2: 1, 200: 2},
+		map[complex128]string{1 + 2i: "a", 1 + 1i: "b", 0: "c", complex(math.NaN(), 1): "d", complex(1, math.NaN()): "e"},
+		map[complex64]int{2i: 1, 1i: 2}, map[chan int]int{es.C: 1, make(chan int): 2, nil: 3}, map[*int]int{px: 1, new(int): 2, nil: 3},
+		map[interface{}]int{int8(1): 1, int16(1): 2, int8(0): 3, int16(0): 4, uint8(1): 5, "": 6, "a": 7},
+		map[interface{}]int{es.C: 1, px: 2, nilp: 3, nilc: 4}, map[string]int{"b": 1, "a": 2, "": 3}, map[int32]int{-1: 1, 5: 2, 0: 3},
+		map[[2]uint]int{{1, 2}: 1, {1, 1}: 2}, map[struct {
+			A uint
+			B complex128
+		}]int{{1, 2}: 1, {1, 1}: 2, {0, 3}: 3},
+		// values reachable through unexported fields only (printed by
+		// reflection; reflect forbids Interface() on them)
+		struct {
+			ID   int
+			user interface{}
+		}{1, redact.Safe("bob")},
+		struct {
+			ID   int
+			user interface{}
+			more map[string]interface{}
+			s    []interface{}
+		}{2, redact.Unsafe("bob"), map[string]interface{}{"a": redact.Safe(1), "b": redact.Unsafe(simPlainErr{Msg: "m"})}, []interface{}{redact.Safe(es.M), redact.SafeString("x"), redact.RedactableString("r ‹x›"), simStringer{1}, fmt.Errorf("e")}},
+		struct{ sv, uv, rs, rb interface{} }{redact.Safe(simPlainErr{Msg: "m"}), redact.Unsafe(nil), redact.RedactableString("‹y›"), redact.RedactableBytes("‹z›")},
+		[5]byte{1, 2, 0xe2, 0x80, 0xb9}, &[3]byte{'a', 'b', 0xff}, [0]byte{}, []byte(nil), int16(-3), uint16(9), uint32(1 << 31)}
+	verbs := []string{"%v", "%+v", "%#v", "%d", "%x", "%p", "%s", "%T", "%q", "%08.3v", "%-9d", "%U", "%c", "%t", "%e", "%F", "% x", "%#x", "%X", "%o", "%b"}
 	k := op.N
 	if k < 0 {
 		k = -k
